@@ -173,8 +173,36 @@ pub fn gen_case(rng: &mut Rng, _thorough: bool, case: u64) -> J {
         let r2 = enc(b.build());
         cfgs.push(json!({"ss": ssz, "nc": ncc, "res": r, "again": r2}));
     }
-    json!({"mode": "run", "nullGuess": null_guess, "stdoutNoise": stdout_noise, "stalledLate": stalled_late, "configs": cfgs, "criteria": crits.iter().map(|c| c.0.clone()).collect::<Vec<_>>(), "nc": nc, "threaded": threaded, "barrier": barrier, "immediate": immediate, "tiny": scale != 1.0, "failAt": fail_at,
+    // now and then: the two-runs-with-an-interrupt experiment, in a process of its own
+    let signal_twin = if case % 61 == 7 {
+        std::process::Command::new(std::env::current_exe().unwrap()).arg("signal-child").output().ok()
+            .and_then(|o| serde_json::from_slice::<J>(&o.stdout).ok()).unwrap_or(json!("no-output"))
+    } else { J::Null };
+    json!({"mode": "run", "signalTwin": signal_twin, "nullGuess": null_guess, "stdoutNoise": stdout_noise, "stalledLate": stalled_late, "configs": cfgs, "criteria": crits.iter().map(|c| c.0.clone()).collect::<Vec<_>>(), "nc": nc, "threaded": threaded, "barrier": barrier, "immediate": immediate, "tiny": scale != 1.0, "failAt": fail_at,
            "calls": calls.load(Ordering::SeqCst), "maxLive": max_live.load(Ordering::SeqCst), "ret": ret,
            "csvRows": rows.len(), "rowObjs": row_objs, "rowInputs": row_inputs, "bestFile": best_file, "bestLate": best_late, "stalledStarted": stalled_started,
            "sampleSize": ss_run, "rowPairs": if immediate { json!(row_pairs) } else { J::Null }, "callPairs": if immediate { json!(call_pairs) } else { J::Null }})
+}
+
+/// C04 in a process that launches twice: two runs with the `Signal` criterion, each interrupted (SIGINT to this very
+/// process, raised by the objective function at its 4th call).  Either a run refuses to start, or it stops soon after
+/// the interrupt - it never runs on to its budget of 300.  Runs in a process of its own (`cvh signal-child`).
+pub fn signal_child() -> J {
+    let mut out = Vec::new();
+    for _ in 0..2 {
+        let calls = Arc::new(AtomicUsize::new(0));
+        let c2 = calls.clone();
+        let obj = meta::make_obj_func(move |v: J| {
+            let k = c2.fetch_add(1, Ordering::SeqCst);
+            if k == 3 { let _ = nix::sys::signal::raise(nix::sys::signal::Signal::SIGINT); }
+            std::thread::sleep(Duration::from_millis(3));
+            Some(v["x"].as_f64().unwrap_or(0.0).abs() + 1.0)
+        });
+        let spec = spec_util::from_yaml_str(SPEC).unwrap();
+        let cfg = AlgoConfigBuilder::new().build().unwrap();
+        let res = std::panic::catch_unwind(std::panic::AssertUnwindSafe(|| sync_launch::launch(spec, obj, cfg, vec![TerminationCriterion::NumObjFuncEval(300), TerminationCriterion::Signal], None, false, None)));
+        let ret = match res { Err(_) => json!("panic"), Ok(Ok(r)) => json!({"ok": r.num_obj_func_eval_completed + r.num_obj_func_eval_rejected}), Ok(Err(e)) => json!({"err": e.to_string()}) };
+        out.push(json!({"ret": ret, "calls": calls.load(Ordering::SeqCst)}));
+    }
+    json!(out)
 }
